@@ -389,6 +389,8 @@ func commitSig(c commit.Commit) string {
 	return sb.String()
 }
 
+var c13HangSeen bool
+
 func (l *c13Log) rangeCase(n int) (key string, nontrivial bool, sample any, vs []eng.Violation) {
 	var got []string
 	var err error
@@ -399,14 +401,25 @@ func (l *c13Log) rangeCase(n int) (key string, nontrivial bool, sample any, vs [
 					Detail: fmt.Sprintf("%s, first %d of %d bytes: panic: %v", l.name, n, len(l.data), r)})
 			}
 		}()
-		err = commit.Open(bytes.NewReader(l.data[:n])).Range(func(c commit.Commit) error {
+		lg := commit.Open(bytes.NewReader(l.data[:n]))
+		err = lg.Range(func(c commit.Commit) error {
 			got = append(got, commitSig(c))
 			return nil
 		})
+		// whatever the outcome, the log object must still answer: a recovery routine
+		// ranges again or closes it (the limit only turns "blocks forever" into a verdict)
+		if !c13HangSeen && !within(c14Patience, func() {
+			lg.Range(func(commit.Commit) error { return nil })
+			lg.Close()
+		}) {
+			c13HangSeen = true // one verdict per worker process is enough; do not wait again
+			vs = append(vs, eng.Violation{Assert: "log/hang", Once: true, Witness: "a call on the log blocks forever after ranging over it",
+				Detail: fmt.Sprintf("%s, first %d of %d bytes: Range returned err=%v; a second Range followed by Close did not return within %v", l.name, n, len(l.data), err, c14Patience)})
+		}
 	}()
 	sample = map[string]any{"log": l.name, "bytes": n, "of": len(l.data), "delivered": len(got), "error": fmt.Sprint(err)}
 	if len(vs) > 0 {
-		return "panic", true, sample, vs
+		return vs[0].Assert, true, sample, vs
 	}
 	for i, g := range got {
 		if i >= len(l.commits) || g != commitSig(l.commits[i]) {
@@ -429,7 +442,7 @@ func init() {
 			"commits incl. a multi-block transaction, produced by committing from inside the destination writer's first Write), each restored into a fresh collection; and every prefix of log " +
 			"files holding 1..4 commits over two blocks, ranged over; plus (SCHED) snapshots taken beside 2 committing transactions in every interleaving up to 2 preemptions, cut at " +
 			"every s2 frame boundary. Oracle: Restore returns an error, or the restored rows/values/indexes/keys equal the model at the state stream plus the first j " +
-			"logged commits for some j; Log.Range delivers a prefix of the appended commits, each equal to the original; no panic. distinct = distinct (history, outcome class) pairs; " +
+			"logged commits for some j; Log.Range delivers a prefix of the appended commits, each equal to the original, and a second Range and Close on the same log return; no panic. distinct = distinct (history, outcome class) pairs; " +
 			"thorough adds a multi-frame (~3 MB) snapshot at every s2 frame boundary +-2 and every 997th byte",
 		Assumptions: []string{"a hang is caught only by the coordinator's watchdog (reported as a harness error, not a violation)", "truncation only (no bit flips): what a crash while writing leaves behind"},
 		Budget:      budget(170*time.Second, 28*time.Minute),
@@ -458,8 +471,8 @@ func init() {
 			var scs []scenario
 			for _, sc := range c08Scenarios() {
 				sc := sc
-				if len(sc.writers) > 2 && tier == "quick" {
-					continue
+				if (len(sc.writers) > 2 && tier == "quick") || sc.full {
+					continue // (full: 16K filler rows, only the whole-snapshot oracle of C08 knows them)
 				}
 				b := 2
 				if len(sc.writers) > 2 {
